@@ -11,6 +11,11 @@ CLAIMED = {
   note="Bounded random search (<=60 blocks, <=4 txs per block, 4 funded users); one amd64 host, so cross-architecture floating point is not varied; host-clock thresholds are straddled only for candidate durations (constants next to clock reads in the sources plus a fixed grid) with 6-10 s margins; SDK/IAVL/rapid trusted.",
   technique=TECH + ": state machine over blocks, differential between replicas (restart / second process / delayed wall clock), shrinking to JSON replay",
   ref="DESIGN.md §4 C11"),
+ "C12": dict(
+  text="Generated all-module histories on an ABCI node; at generated heights (as-is) and at the end (as-is and zero-height after the modules' own preparation) the state is exported and imported into a fresh application: import must be accepted and the registered invariants hold, exporting the imported application again must give the same genesis for each of the ten modules, and a catalogue of ~100-300 queries about durable objects (pools, farm pools and farmers with pending rewards, open HTLCs and asset supplies, tokens and burned totals, NFT/MT classes, holdings and supplies, service definitions/bindings/withdraw addresses/contexts, feeds with value history, pending random requests, every record by id) must answer byte-identically. Three recorded findings are excluded by narrowly named clauses whose hit counts are reported.",
+  note="Bounded random search (<=60 blocks, 4 funded users, default parameters except what histories change); queue membership after import is not observable through genesis or queries and is not asserted; SDK/IAVL/rapid trusted.",
+  technique=TECH + ": state machine over blocks, round-trip (export -> import -> export) and differential query oracle, shrinking to JSON replay",
+  ref="DESIGN.md §4 C12"),
  "C19": dict(
   text="Generated histories of record creations (byte-identical duplicates within one tx, one block and across blocks), blocks and other-module messages; after every step every id ever returned is read back and compared with what was submitted, ids are checked pairwise distinct and the raw record store is checked to only grow.",
   note="Bounded random search (history length, 3 creators, small content alphabet); SDK/bank/store and rapid trusted; no proof of absence.",
